@@ -530,11 +530,46 @@ func runCheck(id, tier, only string, workers int, verbose bool) int {
 		"explanation":                   "bounded symbolic execution of the real code (go/ssa of /repo's working tree) with an SMT solver deciding every assertion; states = execution-tree nodes, transitions = feasible branch edges",
 		"exhaustive":                    false,
 	}
+	// stated bounds: the per-harness parameters of this tier plus the engine limits
+	var bounds []string
+	bounds = append(bounds, spec.Bounds...)
+	for _, hsp := range spec.Harnesses {
+		params := hsp.Quick
+		if tier == "thorough" {
+			params = hsp.Thorough
+		}
+		if params == nil {
+			continue
+		}
+		if only != "" && !strings.Contains(hsp.Func, only) {
+			continue
+		}
+		pj, _ := json.Marshal(params)
+		mp := hsp.MaxPaths
+		if mp == 0 {
+			mp = 200000
+		}
+		bounds = append(bounds, fmt.Sprintf("%s %s (path budget %d; exceeding it is reported as inconclusive)", hsp.Func, pj, mp))
+	}
+	bounds = append(bounds, "engine limits: call depth 400 (deeper = reported as stack overflow of the target), instruction budget per path, <= 80 alternatives when a symbolic index is concretised, solver timeout per query; any limit hit is reported as inconclusive (exit 3), never as success")
+	ev.Coverage["bounds"] = bounds
+	ev.Assumptions = append(ev.Assumptions,
+		"Badger is modelled (sorted versioned entries, snapshot reads + own writes, atomic durable commit, DetectConflicts=false, iterator semantics of v4.2.0, Sequence, Backup); every counterexample and 4+ sampled passing paths per harness are replayed against the real Badger",
+		"encoding/json is modelled; symbolic string bytes are assumed printable ASCII that needs no escape",
+		"clock: each time.Now() advances 1 microsecond; timers fire only under FireTimer or when every thread is blocked",
+		"goroutines: one interpreter thread runs at a time; switches happen at verifhook.Point boundaries, at Lock/RLock calls when the harness enables them, and at blocking operations, within the preemption bound",
+		"process death happens at verifhook.Point boundaries; a Badger commit is atomic and durable once it returned",
+		"stubs: zap, statsd and the event bus return zero values; cron registration is recorded, not fired; jwt.ParseWithClaims obeys its documented contract for the token shape the harness supplies",
+	)
 	os.MkdirAll(filepath.Join(verifDir, "evidence"), 0o755)
 	b, _ := json.MarshalIndent(ev, "", " ")
 	if err := os.WriteFile(filepath.Join(verifDir, "evidence", id+".json"), b, 0o644); err != nil {
 		fmt.Fprintln(os.Stderr, "check: cannot write evidence:", err)
 		return 3
+	}
+	if only == "" {
+		// the last complete run of each tier is kept as well
+		_ = os.WriteFile(filepath.Join(verifDir, "evidence", id+"."+tier+".json"), b, 0o644)
 	}
 	fmt.Fprintf(os.Stderr, "[%s] tier=%s paths=%d states=%d validated=%d known=%d violations=%d inconclusive=%d wall=%.1fs\n", id, tier, totalPaths, totalStates, validated, len(knownLines), len(violLines), len(inconclusive), time.Since(t0).Seconds())
 	if len(violLines) > 0 {
